@@ -328,10 +328,128 @@ fn gen_background(rng: &mut Rng, wildcard_mass: bool) -> Bg {
     }
 }
 
-const KINDS: [&str; 16] = [
+const KINDS: [&str; 20] = [
     "rand", "quant", "counts", "wfin", "rand", "quant", "counts", "const", "narrow", "wide", "large", "wmass",
-    "roundup", "protein", "huge", "special",
+    "roundup", "protein", "huge", "special", "skew", "long", "widerow", "long",
 ];
+
+/// a strongly skewed background: one (sometimes two) rare symbols of probability 2^-e, e in 11..=20, the other
+/// non-wildcard symbols dyadic so that the f32 sum (in order) and the real sum are exactly 1
+fn gen_skew_background(rng: &mut Rng) -> (Bg, Vec<usize>) {
+    let e = 11 + rng.below(10) as i32;
+    let tiny = (2.0f64).powi(-e) as f32;
+    let two = rng.chance(1, 4);
+    let mut order = [0usize, 1, 2, 3];
+    for i in (1..4).rev() {
+        let j = rng.below(i as u64 + 1) as usize;
+        order.swap(i, j);
+    }
+    let mut f = [0f32; K];
+    let rare: Vec<usize>;
+    if two {
+        // tiny, tiny, 1/2, 1/2 - 2*tiny
+        f[order[0]] = tiny;
+        f[order[1]] = tiny;
+        f[order[2]] = 0.5;
+        f[order[3]] = 0.5 - 2.0 * tiny;
+        rare = vec![order[0], order[1]];
+    } else {
+        // tiny, 1/2, 1/4, 1/4 - tiny
+        f[order[0]] = tiny;
+        f[order[1]] = 0.5;
+        f[order[2]] = 0.25;
+        f[order[3]] = 0.25 - tiny;
+        rare = vec![order[0]];
+    }
+    (
+        Bg {
+            mode: "new",
+            text: f.iter().map(|x| x.to_bits().to_string()).collect::<Vec<_>>().join(","),
+            freqs: f,
+        },
+        rare,
+    )
+}
+
+/// `skew`: width 5..8 (all words enumerable), the rare symbol(s) carry the best cell of every row, so that the
+/// best words have probability 2^(-e*M) (down to 2^-160) and every prefix of length >= 5 of a best word has a
+/// density below 2^-52
+fn gen_matrix_skew(rng: &mut Rng, m: usize, rare: &[usize]) -> Vec<[f32; K]> {
+    let quant = rng.chance(1, 2);
+    let mut rows = vec![];
+    for _ in 0..m {
+        let mut r = [NINF; K];
+        for c in r.iter_mut().take(4) {
+            *c = if quant { (rng.range(-16, 4) as f32) * 0.5 } else { (unit(rng) * 9.0 - 7.0) as f32 };
+        }
+        let top = r[..4].iter().cloned().fold(f32::NEG_INFINITY, f32::max);
+        for &a in rare {
+            r[a] = if quant { top + 0.5 * (1 + rng.below(5)) as f32 } else { top + 0.25 + (unit(rng) * 2.5) as f32 };
+        }
+        rows.push(r);
+    }
+    rows
+}
+
+/// `long`: width 27..40 (thorough: ..48 when the tail stays a normal double), integer cells (the discretised cells
+/// are multiples of the integer scale: the density stays sparse and the bit-exact replay cheap; the exact tail is
+/// computed on the integer grid of the scores, DistGridModel.conv_tableZ)
+fn gen_matrix_long(rng: &mut Rng, m: usize, rare: &[usize]) -> Vec<[f32; K]> {
+    let lo = -(2 + rng.below(7) as i64);
+    let hi = 1 + rng.below(4) as i64;
+    let mut rows = vec![];
+    for _ in 0..m {
+        let mut r = [NINF; K];
+        for c in r.iter_mut().take(4) {
+            *c = rng.range(lo, hi) as f32;
+        }
+        // the rare symbols (if any) are the consensus
+        for &a in rare {
+            r[a] = hi as f32;
+        }
+        rows.push(r);
+    }
+    // the extreme cells exist, so that offset = lo and the scale is the integer floor(1000 / (hi - lo))
+    let i0 = rng.below(m as u64) as usize;
+    let i1 = rng.below(m as u64) as usize;
+    let free: Vec<usize> = (0..4).filter(|a| !rare.contains(a)).collect();
+    rows[i0][free[0]] = lo as f32;
+    rows[i1][*free.last().unwrap()] = hi as f32;
+    rows
+}
+
+/// `widerow`: a range above CDF_RANGE (fractional scale) caused by ONE wide entry in the first or a middle row (all
+/// other cells within a few units), so that the partial sums over the first rows already use the whole budget
+fn gen_matrix_widerow(rng: &mut Rng, m: usize) -> Vec<[f32; K]> {
+    let span = *rng.pick(&[1500.0f32, 2500.0, 4000.0, 1000.5, 1001.0, 1.0e5, 999.5]);
+    let quant = rng.chance(1, 2);
+    let mut rows = vec![];
+    for _ in 0..m {
+        let mut r = [NINF; K];
+        for c in r.iter_mut().take(4) {
+            *c = if quant { (rng.range(-8, 8) as f32) * 0.5 } else { (unit(rng) * 8.0 - 4.0) as f32 };
+        }
+        rows.push(r);
+    }
+    let at = match rng.below(3) {
+        0 => 0,
+        1 => m / 2,
+        _ => rng.below(m as u64) as usize,
+    };
+    let col = rng.below(4) as usize;
+    if rng.chance(1, 4) {
+        // wide downwards: one very low entry
+        rows[at][col] = -span;
+    } else {
+        rows[at][col] = span;
+        if rng.chance(1, 3) {
+            // and a second one, later
+            let at2 = (at + 1 + rng.below(m as u64) as usize) % m;
+            rows[at2][(col + 1) % 4] = span * 0.75;
+        }
+    }
+    rows
+}
 
 fn gen_matrix(rng: &mut Rng, kind: &str, m: usize, bg: &Bg) -> Vec<[f32; K]> {
     let mut rows: Vec<[f32; K]> = vec![];
@@ -605,6 +723,31 @@ fn gen_case(rng: &mut Rng, id: usize, tier: &str) -> String {
     if kind == "protein" {
         return gen_case_protein(rng, id, tier);
     }
+    if kind == "skew" || kind == "long" || kind == "widerow" {
+        let (bg, rare) = if kind == "skew" || (kind == "long" && rng.chance(1, 3)) {
+            gen_skew_background(rng)
+        } else {
+            (gen_background(rng, false), vec![])
+        };
+        let rows5 = match kind {
+            "skew" => {
+                // width 8 (65536 words with 160-bit weights) costs ~15 s in the checker: thorough tier only
+                let m = 5 + rng.below(if tier == "thorough" { 4 } else { 3 }) as usize;
+                gen_matrix_skew(rng, m, &rare)
+            }
+            "long" => {
+                // 2^(-20 * 48) is still a normal double
+                let m = 27 + rng.below(if tier == "thorough" { 22 } else { 14 }) as usize;
+                gen_matrix_long(rng, m, &rare)
+            }
+            _ => {
+                let m = 2 + rng.below(5) as usize;
+                gen_matrix_widerow(rng, m)
+            }
+        };
+        let rows: Vec<Vec<f32>> = rows5.iter().map(|r| r.to_vec()).collect();
+        return finish_case(rng, id, kind, None, bg.mode, &bg.text, &rows, 4, 4f64, tier);
+    }
     let wmass = kind == "wmass";
     let bg = gen_background(rng, wmass);
     let cap = if wmass { 6 } else { 8 };
@@ -678,6 +821,11 @@ fn finish_case(
             pr.push((s - 0.5 * step) as f32);
             pr.push((s + d) as f32);
             pr.push((s - d) as f32);
+        }
+        if wi == 1 {
+            // the best word: just inside the lower bracket (P(S >= best) > 0 must be below the p-value)
+            pr.push(next_down32((s - d) as f32));
+            pr.push((s - 1.5 * d) as f32);
         }
         if dsc.is_finite() && dsc >= 0.0 && dsc < 1e6 {
             let k = dsc as usize;
